@@ -179,7 +179,7 @@ Qed.
    Proved so far: the panic component and the five state predicates, positions [sel_state] = 0 (e_panic), 1 (c01_dump),
    6 (c03_dump), 7 (c03_waited), 8 (c04_dump), 17 (c07_background). *)
 Theorem p_step_components : forall cfg t0 m pre e o post,
-  p_step cfg t0 m pre e o post = (pm_final cfg post e o m, first_nonempty (p_components cfg t0 m pre e o post)).
+  p_step cfg t0 m pre e o post = (pm_final cfg pre post e o m, first_nonempty (p_components cfg t0 m pre e o post)).
 Proof. exact p_step_components. Qed.
 Print Assumptions p_step_components.
 
